@@ -640,6 +640,23 @@ def sympy_ok(tree):
     return True
 
 
+def div_ok(n, py=frozenset()):
+    """filter: the divisor of an ArithmeticPT must get its value from the caller's parameters (numpy scalars: a zero
+    gives inf).  A name bound to a constant by a mapping, or to a loop index, reaches the division as a Python number,
+    where a zero raises ZeroDivisionError: what a zero divisor does is not a matter of parameters (notes: outside C03)"""
+    k = n['k']
+    if k == 'ari' and n['op'] == '/':
+        for e in list(n['sa']) + [e for _, e in n['sc']]:
+            if not (evars(e) - py):
+                return False
+    if k == 'for':
+        return div_ok(n['body'], py | {n['idx']})
+    if k == 'map':
+        bound = {key for key, e in n['m'].items() if not (evars(e) - py)}
+        return div_ok(n['inner'], (py - set(n['m'])) | bound)
+    return all(div_ok(q, py) for q in children(n))
+
+
 def strip_ids(tree):
     t = copy.deepcopy(tree)
     for n in nodes(t):
@@ -700,7 +717,7 @@ def gen_tree(rng, max_depth):
             for x in TOP[:3]:
                 ref[x] = F(int(ref[x]))
         tree = g.tree(0, set(TOP), [ref], ('A', 'B'))
-        if sympy_ok(tree):
+        if sympy_ok(tree) and div_ok(tree):
             return g, tree, ref
     raise RuntimeError('generator could not produce a sympy-stable tree')
 
